@@ -1,8 +1,8 @@
 """
 C08 — xyz round trip and unit handling: coordinates mean what the file says.
 
-Proof:  Molli.Props.C08 (xyz_read_write, xyz_frames, symbol_roundtrip, unit_invariance, angstrom_identity,
-        numeric layer shared with C07) + generated obligations Molli.Gen.Units (every DistanceUnit member is a
+Proof:  Molli.Props.C08 (xyz_read_write, xyz_frames, xyz_read_write_preserves, xyz_token_fixed, symbol_roundtrip,
+        unit_invariance, toAngstrom_sub, angstrom_identity; numeric layer shared with C07) + generated obligations Molli.Gen.Units (every DistanceUnit member is a
         known, non-zero unit with its physical value) and Molli.Gen.Mol2Types.symbol_roundtrip.
 Tie:    unit table and element symbols regenerated from the live modules; text differential: geometries and
         ensembles written by the real dumps_xyz and by the model writer (byte-identical), read by the real
@@ -97,7 +97,7 @@ def run(ctx):
     # ------------------------------------------------------------------ single geometries and multi-frame texts
     corpus = [c for c in tl.load_corpus("C08")]
     frame_sets = [c["frames"] for c in corpus if "frames" in c]
-    for i in range(200 if quick else 4000):
+    for i in range(200 if quick else 10000):
         k = rng.weighted([(1, 5), (2, 2), (3, 2), (5, 1)])
         frame_sets.append([gen_geom_spec(rng, en, 12 if quick else 40, specials=(i % 6 == 0)) for _ in range(k)])
     for fi, frames in enumerate(frame_sets):
@@ -135,7 +135,7 @@ def run(ctx):
             ctx.sample({"frames": [len(f["atoms"]) for f in frames], "text_head": text[:300]})
 
     # ------------------------------------------------------------------ ensembles: frame by frame
-    for i in range(30 if quick else 400):
+    for i in range(30 if quick else 1000):
         base = gen_geom_spec(rng, en, 8, False)
         if not base["atoms"]:
             continue
@@ -179,7 +179,7 @@ def run(ctx):
     from harness.gen import Units as GU
     unit_tab = GU.observe()
     for name, num, den, val in unit_tab:
-        for rep in range(12 if quick else 150):
+        for rep in range(12 if quick else 300):
             ctx.check_deadline()
             g = gen_geom_spec(rng, en, 6, False)
             for a in g["atoms"]:
